@@ -77,6 +77,12 @@ CHECKS = {
         text="Generated import graphs (chains, diamonds, cycles, self-import, cycle through the main file, sub-directories) are compiled from three working directories (one with decoy files) next to the pasted twin and executed; a monitor records resolutions and how often each file is inlined; every math-library function is compiled and executed for thousands of boundary-biased argument tuples against its documented value.",
         design_ref="DESIGN.md 3 (C17)",
     ),
+    "C13": dict(
+        category="exploration",
+        technique="runtime monitoring: harness-attached monitor on the implicit-signal allocator (freshness invariants) plus differential execution against the rename_implicit twin",
+        text="Programs mixing untyped and explicit values (incl. explicit use of the pool head and 30-140 untyped values) are compiled by the real compiler; a monitor on _allocate_factorio_virtual_signal checks that every compiler-chosen name is no wildcard, not signal-W, not used explicitly by the program and not handed out twice; the twin with every untyped value projected onto a fresh explicit signal is executed for the same valuations and must agree.",
+        design_ref="DESIGN.md 3 (C13)",
+    ),
 }
 
 PENDING = {}
